@@ -7,6 +7,7 @@
    "../x", the piece is attributed to "../x" and dropped: out/b stays empty.  Hostile archives only (the
    writer never re-uses an id); confinement (C16) is not affected — extract_linear_sim ties the source to
    extract_linear_pool on the pieces of the walk over the ACCEPTED names, which is what C16 quantifies over. *)
+From MLA Require Import Limit.
 From MLA Require Import Base Stream Blocks Reader Path Pool Cli CliExtract SrcTie3Reader.
 From MLAGen Require Src3d Src3l Src3x.
 Import Coq.Strings.String.StringSyntax.
